@@ -33,7 +33,9 @@ type c15Cell struct {
 	Seed    uint64 `json:"content_seed"`
 	Content int    `json:"content_mode,omitempty"`
 	Band    bool   `json:"full_width_band,omitempty"`
-	Full    string `json:"full,omitempty"` // thorough: "ycbcr24" = all 2^24 YCbCr triples, "nrgba16" = all (c,a) pairs
+	Odd     bool   `json:"odd_stride,omitempty"`    // hand-built source whose stride is not a multiple of its pixel size
+	Corner  int    `json:"parent_corner,omitempty"` // 4: the source is the bottom-right corner of its parent, 5: the top-left corner
+	Full    string `json:"full,omitempty"`          // thorough: "ycbcr24" = all 2^24 YCbCr triples, "nrgba16" = all (c,a) pairs
 }
 
 var c15SrcKinds = []string{"NRGBA", "RGBA", "NRGBA64", "RGBA64", "YCbCr444", "YCbCr422", "YCbCr420", "YCbCr440", "YCbCr411", "YCbCr410", "NYCbCrA", "Gray", "Gray16", "Alpha", "Alpha16", "CMYK", "Paletted", "Uniform", "opaque"}
@@ -88,6 +90,12 @@ func c15Source(c c15Cell) image.Image {
 	}
 	if c.Band {
 		mode = 2
+	}
+	if c.Odd {
+		mode = 3
+	}
+	if c.Corner != 0 {
+		mode = c.Corner
 	}
 	return newSourceMode(c.Src, r, mode, c.Content, rng)
 }
@@ -226,6 +234,26 @@ func c15Cells(seed int64, thorough, race bool) []c15Cell {
 					}
 					cells = append(cells, c15Cell{Helper: h, Src: sk, Sub: content == 1, Band: content == 3, W: 9, H: 8, OX: 2, OY: 4, Par: par, Content: content, Seed: rng.U64()})
 				}
+			}
+		}
+	}
+	// hand-built sources with an odd stride; sub-images that end in the parent's last row at x > 0;
+	// images of more than 256 rows at parallelisms above 256; more than 65 536 pixels
+	if !race {
+		for _, h := range c15Helpers {
+			for _, sk := range c15SrcKinds {
+				if sk == "Uniform" {
+					continue
+				}
+				cells = append(cells,
+					c15Cell{Helper: h, Src: sk, Odd: true, W: 7, H: 6, OX: 1, OY: 2, Par: 1 + len(cells)%3, Seed: rng.U64()},
+					c15Cell{Helper: h, Src: sk, Odd: true, W: 7, H: 6, OX: 1, OY: 2, Par: 2, Content: 3, Seed: rng.U64()},
+					c15Cell{Helper: h, Src: sk, W: 5, H: 700, OX: 2, OY: 0, Par: []int{257, 300, 705, 1000}[len(cells)%4], Seed: rng.U64()},
+					c15Cell{Helper: h, Src: sk, Sub: true, W: 300, H: 231, OX: 0, OY: 0, Par: 7, Seed: rng.U64()},
+					c15Cell{Helper: h, Src: sk, Sub: true, Corner: 4, W: 3, H: 3, OX: 2, OY: 2, Par: 1 + len(cells)%3, Seed: rng.U64()},
+					c15Cell{Helper: h, Src: sk, Sub: true, Corner: 5, W: 6, H: 4, OX: 0, OY: 0, Par: 2, Seed: rng.U64()},
+					c15Cell{Helper: h, Src: sk, Sub: true, W: 4, H: 4, OX: 1, OY: 1, Par: 1 + len(cells)%2, Content: 5, Seed: rng.U64()},
+					c15Cell{Helper: h, Src: sk, Sub: true, Corner: 4, W: 5, H: 3, OX: 1, OY: 0, Par: 3, Content: 5, Seed: rng.U64()})
 			}
 		}
 	}
